@@ -11,8 +11,11 @@ proxy WCS sees _image_bounds evaluate; TLC's chunk grids are compared with Chunk
 chunked image.  Property monitors on the real code (the sentences of C07): (a) every real tile to depth 4 with a pixel centre
 in a box is delivered by generate_tiles_filtered with the box filter, (b) every tile holding a finite sampled pixel of an
 image is accepted by WcsSampler.filter() on its whole path (directed witness search), (c) the same for chunk filters,
-(d) sample_layer_filtered == sample_layer and all chunks == whole map, pixel for pixel, (e) no filter call changes the
-corners of the tile it is given.
+(d) filtered sampling == sample_layer and all chunks == whole map, pixel for pixel, through every public route by which a
+filter reaches a run (toast.sample_layer_filtered, Builder.toast_base with is_planet / coordsys, tile_fits / FitsTiler in TOAST
+mode whose downsampling stage is pruned by the UNION of the footprint filters of the collection's entries - the same file may
+be listed more than once) in both coordinate systems; pixel centres lying ON a chunk seam may take either neighbour's value
+but must not be left without data, (e) no filter call changes the corners of the tile it is given.
 """
 import json
 import math
